@@ -7,6 +7,8 @@ bad=0
 for d in "$ROOT"/seeded/*/; do
   name=$(basename "$d"); id=${name%%-*}
   if [ ${#ids[@]} -gt 0 ] && [[ ! " ${ids[*]} " =~ " $id " ]]; then continue; fi
+  sup=$(python3 -c "import json;print(json.load(open('$d/meta.json')).get('superseded_by',''))" 2>/dev/null)
+  if [ -n "$sup" ]; then echo "$name: superseded by $sup (written against an earlier tree)"; continue; fi
   if ! git -C /repo apply --check "$d/patch.diff" 2>/dev/null; then echo "$name: PATCH DOES NOT APPLY"; bad=1; continue; fi
   git -C /repo apply "$d/patch.diff"
   out=$("$ROOT/check" "$id" quick 2>&1); r=$?
